@@ -638,6 +638,35 @@ func (sc *siteCollector) block(b *hs.Block, cx *fctx) {
 	}
 }
 
+// loopHeader: the condition of a `while` and the iterator of a `for` are evaluated outside the
+// loop they head: a break / continue inside them belongs to an enclosing loop, if there is one.
+func (sc *siteCollector) loopHeader(slot *hs.Expr, cx *fctx, where string) {
+	if cx.loops != 0 || (cx.fn == nil && cx.closure == 0) {
+		return
+	}
+	for _, which := range []string{"break", "continue"} {
+		which := which
+		rule := reftype.RBreak
+		if which == "continue" {
+			rule = reftype.RContinue
+		}
+		sc.add(rule, which+"-in-loop-header", cx, []string{"stmt:" + which, "in:" + where}, func() {
+			var st hs.Stmt = &hs.Break{}
+			if which == "continue" {
+				st = &hs.Continue{}
+			}
+			*slot = &hs.BlockExpr{B: hs.Blk(*slot, st)}
+		})
+		sc.add(rule, which+"-in-loop-header-under-if", cx, []string{"stmt:" + which, "in:" + where}, func() {
+			var st hs.Stmt = &hs.Break{}
+			if which == "continue" {
+				st = &hs.Continue{}
+			}
+			*slot = &hs.BlockExpr{B: hs.Blk(*slot, hs.ES(&hs.If{Cond: hs.B(false), Then: hs.Blk(nil, st)}))}
+		})
+	}
+}
+
 func (sc *siteCollector) loopBody(body *hs.Block, cx *fctx, kind string) {
 	// break/continue wrapped into a closure literal inside the loop
 	for _, which := range []string{"break", "continue"} {
@@ -771,10 +800,12 @@ func (sc *siteCollector) stmt(b *hs.Block, i int, cx *fctx) {
 	case *hs.Loop:
 		sc.loopBody(n.Body, cx, "loop")
 	case *hs.While:
+		sc.loopHeader(&n.Cond, cx, "while-condition")
 		sc.cond(&n.Cond, cx, "while")
 		sc.expr(&n.Cond, cx)
 		sc.loopBody(n.Body, cx, "while")
 	case *hs.For:
+		sc.loopHeader(&n.Iter, cx, "for-iterator")
 		it := sc.typeOf(n.Iter)
 		for _, pe := range c03Palette {
 			pe := pe
